@@ -263,6 +263,103 @@ def check_shared(res, specs, flowspec, ref):
                       note="two flows of one Sequence object read alternately")
 
 
+# ---------------------------------------------------------------------------------------------------
+# law "callables": every kind of plain callable is an element (a per-value map), whatever its signature,
+# whatever it remembers, and whatever objects the flow repeats
+
+class _Nth(object):
+    """Stateful callable: pairs every value with the number of calls so far."""
+
+    def __init__(self):
+        self.n = 0
+
+    def __call__(self, value):
+        self.n += 1
+        return (value, self.n)
+
+
+class _Star(object):
+    def __call__(self, *args):
+        return ("star-obj",) + args
+
+
+def _f_plain(v):
+    return ("plain", v)
+
+
+def _f_star(*args):
+    return ("star",) + args
+
+
+def _f_star_kw(*args, **kwargs):
+    return ("star-kw",) + args
+
+
+def _f_default(v, k=1):
+    return ("default", v, k)
+
+
+def _make_callable(name):
+    import functools
+    return {"def f(v)": lambda: _f_plain, "def f(*args)": lambda: _f_star,
+            "def f(*args, **kwargs)": lambda: _f_star_kw, "def f(v, k=1)": lambda: _f_default,
+            "lambda v": lambda: (lambda v: ("lambda", v)),
+            "functools.partial": lambda: functools.partial(_f_default, k=2),
+            "object.__call__(self, *args)": lambda: _Star(), "stateful object": lambda: _Nth(),
+            "bound method": lambda: _Nth().__call__, "builtin type": lambda: str}[name]()
+
+
+CALLABLES = ["def f(v)", "def f(*args)", "def f(*args, **kwargs)", "def f(v, k=1)", "lambda v",
+             "functools.partial", "object.__call__(self, *args)", "stateful object", "bound method",
+             "builtin type"]
+_BUF = [0]
+CALL_FLOWS = {"empty": lambda: [], "one": lambda: [7], "distinct": lambda: [1000, 1001, 1002],
+              "one object three times": lambda: [3000 + 0 * i for i in range(3)] and [_BUF, _BUF, _BUF],
+              "equal small ints": lambda: [5, 5, 5, 6, 5]}
+CALL_FORMS = ["Sequence(f)", "Sequence(Sequence(f))", "Source(flow, f)", "Run(f).run", "Sequence(f, g)",
+              "Split([f]) in a Sequence"]
+
+
+def check_callables(res):
+    for name in CALLABLES:
+        for fname in sorted(CALL_FLOWS):
+            for form in CALL_FORMS:
+                case = {"law": "callables", "callable": name, "flow": fname, "form": form}
+                flow = CALL_FLOWS[fname]()
+                f0 = _make_callable(name)
+                expected = [f0(v) for v in flow]
+                if form == "Sequence(f, g)":
+                    g0 = _make_callable(name)
+                    expected = [g0(v) for v in expected]
+                try:
+                    f = _make_callable(name)
+                    if form == "Sequence(f)":
+                        got = list(lena.core.Sequence(f).run(iter(flow)))
+                    elif form == "Sequence(Sequence(f))":
+                        got = list(lena.core.Sequence(lena.core.Sequence(f)).run(iter(flow)))
+                    elif form == "Source(flow, f)":
+                        got = list(lena.core.Source(flow, f)()) if flow else \
+                            list(lena.core.Source(lambda: iter(flow), f)())
+                    elif form == "Run(f).run":
+                        got = list(lena.core.Run(f).run(iter(flow)))
+                    elif form == "Sequence(f, g)":
+                        got = list(lena.core.Sequence(f, _make_callable(name)).run(iter(flow)))
+                    else:
+                        got = list(lena.core.Sequence(lena.core.Split([f])).run(iter(flow)))
+                    observed = repr(got)
+                    ok = got == expected
+                except Exception as e:
+                    ok, observed = False, "raised " + type(e).__name__
+                res.case(nontrivial=len(flow) >= 2, outcome=(name, fname, form, observed))
+                if not ok:
+                    res.violation(case, observed, repr(expected),
+                                  {"law": "callables", "callable": name,
+                                   "flow_repeats_objects": fname in ("one object three times",
+                                                                     "equal small ints"),
+                                   "raised": observed.startswith("raised")})
+    res.sample(case, 1)
+
+
 def check_compose(res, specs, flowspec, form_list=None):
     """Run every form of the list *specs* over the flow and judge it. Returns the last case."""
     kind, m = flowspec
@@ -450,7 +547,8 @@ def _illtyped_cases():
 # shards
 
 def shards(tier):
-    out = [{"kind": "short", "bound": "len<=1"}, {"kind": "illtyped", "bound": "len<=1"}]
+    out = [{"kind": "short", "bound": "len<=1"}, {"kind": "illtyped", "bound": "len<=1"},
+           {"kind": "callables", "bound": "len<=1"}]
     for a in VOCAB:
         out.append({"kind": "lists", "n": 2, "prefix": [a], "bound": "len<=2"})
     for a in VOCAB:
@@ -487,6 +585,8 @@ def run_shard(p, tier):
         for n in (2, 3, 4):
             for fs in _flows(tier, 1):
                 case = check_compose(res, ("Sequence()",) * n, fs)
+    elif p["kind"] == "callables":
+        check_callables(res)
     elif p["kind"] == "illtyped":
         for bad, good, pos, place in _illtyped_cases():
             case = check_illtyped(res, bad, good, pos, place)
@@ -507,6 +607,10 @@ def replay(case):
     warnings.simplefilter("ignore")
     res = Result()
     law = case.get("law")
+    if law == "callables":
+        check_callables(res)
+        return [v for v in result_violations(res)
+                if all(v["case"].get(k) == case.get(k) for k in ("callable", "flow", "form"))]
     if law in ("shared", "interleaved"):
         specs, flowspec = tuple(case["els"]), tuple(case["flow"])
         ref = cm.outcome(lambda: fold(specs, cm.make_flow(*flowspec)))
